@@ -531,7 +531,7 @@ def drive(ctx, reqs, meta):
             continue
         if kind == 'val':
             v = unbits(m['val'][0])
-            if not close(v, real, 1e-9):
+            if not close(v, real, 1e-7):       # (same tolerance as the direct oracle: logdet / quadratic form come from two different factorisations)
                 ctx.corr_break('likelihood-formula', case, v, real)
         elif kind == 'adj':
             if not (close(unbits(m['mean'][0]), real[0]) and close(unbits(m['var'][0]), real[1])):
